@@ -53,7 +53,8 @@ CHECKS = {
              'PIPELINING on/off and proves pairing / never-reads-unowed / all-consumed / LMTP pairs; real Client and '
              'LmtpClient sessions against a scripted peer (every class assignment of a transaction skeleton, every call '
              'sequence to a depth, random multi-transaction sessions, three segmentation modes) are validated by TLC '
-             'against the observer spec.',
+             'against the observer spec and, call by call, as behaviours of the SmtpClient model itself (Trace_SmtpClientD: the model\'s successor '
+             'set narrowed to the replies the real peer sent; which objects hold a reply, of which class, and the LMTP pairs must agree).',
         design='5/C10', technique='TLA+ client/peer model, TLC exhaustive + TLC trace validation of real sessions',
         note='Scripted peer semantics as in DESIGN.md section 7 (C10); content only after 354. ' + TB),
     'C18': dict(
